@@ -324,6 +324,8 @@ def judge(inp):
 
 
 def replay(data):
+    if 'input' not in data.get('replay', {}):
+        return False        # a broken proof / correspondence without a failing input: nothing to re-run
     inp = data['replay']['input']
     inp = dict(inp, os=[tuple(o) for o in inp['os']])
     return judge(inp)[2] is None
@@ -422,7 +424,7 @@ def run(ctx):
     D = C.Distinct()
     terms, meta = [], []
     fails = {}
-    maxlen = 6 if q else 8
+    maxlen = 8 if q else 10
     truncated = []
 
     def record(inp, events, out, verdict, kind):
